@@ -1,5 +1,5 @@
 (* storage/table/manager.go: the table catalogue in the metadata store - createTable, incAndGetIDSeq, DeleteTable,
-   getTables, diffTables - as programs of single store operations that several managers interleave.
+   Restore, getTables, diffTables - as programs of single store operations that several managers interleave.
    Table names are path segments (no '/'): the record key "/tables/<name>" never aliases the id sequence key
    "/tables/sys/idseq" or a lease key "/tables/<name>/lease". *)
 From Verif Require Export Model.Bytes Generated.Constants.
@@ -12,14 +12,21 @@ Inductive cpc :=
 | CCreate1 (name : N)                      (* Exists answered false; next: Get of the id sequence *)
 | CCreate2 (name : N) (v ver : N)          (* sequence read (value, version); next: Set sequence v+1 with ver *)
 | CCreate3 (name : N) (id : N)             (* sequence advanced to id; next: Set record with version 0 *)
-| CDelete1 (name : N) (ver : N).           (* record read; next: Delete with ver *)
+| CDelete1 (name : N) (ver : N)            (* record read; next: Delete with ver *)
+(* Manager.Restore: getTableVersion; incAndGetIDSeq; setTableVersion(recover id); load the stream into the recovery
+   shard; getTableVersion; setTableVersion(cluster id := recovery id, recover id := 0) *)
+| CRest1 (name : N) (r : trec) (ver : N)               (* record read (zero record, version 0 if absent); next: Get of the id sequence *)
+| CRest2 (name : N) (r : trec) (ver : N) (v sver : N)  (* sequence read; next: Set sequence v+1 with sver *)
+| CRest3 (name : N) (r : trec) (ver : N) (id : N)      (* sequence advanced to id; next: Set record {cluster of r, recover := id} with ver *)
+| CRest4 (name : N) (id : N)                           (* recovery shard registered; the stream is being loaded; next: Get record (or the load fails) *)
+| CRest5 (name : N) (id : N) (ver : N).                (* loaded, record read again; next: Set record {cluster := id, recover := 0} with ver *)
 
 Record cst := {
   c_seq : option (N * N);                  (* id sequence record: value, version *)
   c_tabs : list (N * (trec * N));          (* table records by name: record, version *)
   c_next : N;                              (* next log index of the metadata store *)
   c_pcs : list cpc;                        (* one program counter per manager *)
-  c_created : list N                       (* ghost: ids of successfully created tables, newest first *)
+  c_created : list N                       (* ghost: ids given to successfully created or restored tables, newest first *)
 }.
 
 Fixpoint tget (l : list (N * (trec * N))) (k : N) : option (trec * N) :=
@@ -39,10 +46,12 @@ Definition get_pc (l : list cpc) (m : nat) : cpc := nth m l CIdle.
 Inductive caction :=
 | ACreate (m : nat) (name : N)             (* start CreateTable: the Exists operation *)
 | ADelete (m : nat) (name : N)             (* start DeleteTable: the Get operation *)
+| ARestore (m : nat) (name : N)            (* start Restore: the Get of the table record *)
+| AFail (m : nat)                          (* the stream of a running Restore breaks off (reader error, shard lost, node restarted) *)
 | AStep (m : nat)                          (* the manager's next store operation *)
 | AList (m : nat).                         (* GetTables: one GetAll *)
 
-Inductive cresult := CRNone | CRCreated (id : N) | CRExists | CRFailed | CRDeleted | CRNotFound | CRList (l : list (N * N)).
+Inductive cresult := CRNone | CRCreated (id : N) | CRExists | CRFailed | CRDeleted | CRNotFound | CRList (l : list (N * N)) | CRRestored (id : N).
 
 Definition with_pc (s : cst) (m : nat) (p : cpc) : cst :=
   {| c_seq := c_seq s; c_tabs := c_tabs s; c_next := c_next s; c_pcs := set_pc (c_pcs s) m p; c_created := c_created s |}.
@@ -67,6 +76,19 @@ Definition cexec (s : cst) (a : caction) : cst * cresult :=
                  | Some (_, ver) => (with_pc s m (CDelete1 name ver), CRNone)
                  | None => (s, CRNotFound)
                  end
+      | _ => (s, CRNone)
+      end
+  | ARestore m name =>
+      match get_pc (c_pcs s) m with
+      | CIdle => match tget (c_tabs s) name with
+                 | Some (r, ver) => (with_pc s m (CRest1 name r ver), CRNone)
+                 | None => (with_pc s m (CRest1 name {| t_cluster := 0; t_recover := 0 |} 0), CRNone)
+                 end
+      | _ => (s, CRNone)
+      end
+  | AFail m =>
+      match get_pc (c_pcs s) m with
+      | CRest4 _ _ => (with_pc s m CIdle, CRFailed)
       | _ => (s, CRNone)
       end
   | AList m =>
@@ -98,6 +120,34 @@ Definition cexec (s : cst) (a : caction) : cst * cresult :=
           if cas_tab s name ver
           then ({| c_seq := c_seq s; c_tabs := tdel (c_tabs s) name; c_next := c_next s + 1;
                    c_pcs := set_pc (c_pcs s) m CIdle; c_created := c_created s |}, CRDeleted)
+          else ({| c_seq := c_seq s; c_tabs := c_tabs s; c_next := c_next s + 1;
+                   c_pcs := set_pc (c_pcs s) m CIdle; c_created := c_created s |}, CRFailed)
+      | CRest1 name r ver =>
+          (match c_seq s with
+           | Some (v, sver) => with_pc s m (CRest2 name r ver v sver)
+           | None => with_pc s m (CRest2 name r ver start_id 0)
+           end, CRNone)
+      | CRest2 name r ver v sver =>
+          if cas_seq s sver
+          then ({| c_seq := Some (v + 1, c_next s); c_tabs := c_tabs s; c_next := c_next s + 1;
+                   c_pcs := set_pc (c_pcs s) m (CRest3 name r ver (v + 1)); c_created := c_created s |}, CRNone)
+          else ({| c_seq := c_seq s; c_tabs := c_tabs s; c_next := c_next s + 1;
+                   c_pcs := set_pc (c_pcs s) m CIdle; c_created := c_created s |}, CRFailed)
+      | CRest3 name r ver id =>
+          if cas_tab s name ver
+          then ({| c_seq := c_seq s; c_tabs := tset (c_tabs s) name ({| t_cluster := t_cluster r; t_recover := id |}, c_next s);
+                   c_next := c_next s + 1; c_pcs := set_pc (c_pcs s) m (CRest4 name id); c_created := c_created s |}, CRNone)
+          else ({| c_seq := c_seq s; c_tabs := c_tabs s; c_next := c_next s + 1;
+                   c_pcs := set_pc (c_pcs s) m CIdle; c_created := c_created s |}, CRFailed)
+      | CRest4 name id =>
+          match tget (c_tabs s) name with
+          | Some (_, ver) => (with_pc s m (CRest5 name id ver), CRNone)
+          | None => (with_pc s m CIdle, CRNotFound)
+          end
+      | CRest5 name id ver =>
+          if cas_tab s name ver
+          then ({| c_seq := c_seq s; c_tabs := tset (c_tabs s) name ({| t_cluster := id; t_recover := 0 |}, c_next s);
+                   c_next := c_next s + 1; c_pcs := set_pc (c_pcs s) m CIdle; c_created := id :: c_created s |}, CRRestored id)
           else ({| c_seq := c_seq s; c_tabs := c_tabs s; c_next := c_next s + 1;
                    c_pcs := set_pc (c_pcs s) m CIdle; c_created := c_created s |}, CRFailed)
       end
